@@ -4,6 +4,7 @@ import TracklibVerif.Lemmas.MapMatchCompose
 import TracklibVerif.Lemmas.MapMatchZ
 import TracklibVerif.Lemmas.MapMatchTotal
 import TracklibVerif.Lemmas.MapMatchIndexSound
+import TracklibVerif.Lemmas.MapMatchTimes
 /-! # C10 — map-matched positions lie on a real edge within the search radius
 
 Property theorems only (helpers in `Lemmas/MapMatch.lean`, `Lemmas/MapMatchSound.lean`, `Lemmas/MapMatchNet.lean`,
@@ -39,7 +40,12 @@ geometries with their altitudes as given (T20).
 Exceptions (`ZeroDivisionError` of the projection on a vertical segment, D16; `UnboundLocalError` on a candidate edge all of
 whose vertices coincide): Parts I–IV are about a call that returns; Part V (T22–T25) says when it does: on a network none of
 whose edge geometries has a kept vertical segment and each of which has a kept segment (`GoodGeom`), for every answer of the
-index made of existing edge numbers and every decoder answering in-range indices, nothing is raised. -/
+index made of existing edge numbers and every decoder answering in-range indices, nothing is raised.
+
+Part VI (T26–T27) is about the TIME STAMPS: the model's observations carry an opaque stamp (`Obs.t`), and every theorem above is
+for every list of observations — chronological or not, with equal stamps or not. T26/T27 say what that means for the code: it
+neither requires nor establishes a chronological order; the stamps are never read, the list of observations is handed back as
+it was. -/
 namespace TV.C10
 open TV.Proj TV.MapMatch
 variable {α : Type} [Field α] [LinearOrder α] [IsStrictOrderedRing α]
@@ -770,5 +776,44 @@ example : GoodGeom (1 : Rat) [(8, 1), (11, 5), (15, 5)] := by
   | 0 => simp at h1 h2; subst h1 h2; decide +kernel
   | 1 => simp at h1 h2; subst h1 h2; decide +kernel
   | (j + 2) => simp at h2
+
+/-! ## Part VI — time stamps -/
+
+/-- T26 `order_and_stamps_kept`: `__mapOnNetwork` on ONE track, for every network (no hypothesis on its geometries or abscissa
+columns), every decoder, every argument and EVERY assignment of time stamps to the observations (reverse-chronological storage,
+equal stamps, no time information: all stamps equal): when the call returns, the track holds the same observations in the same
+order — positions and time stamps. (T12 states it under the hypotheses needed for its other clauses; this is the clause of the
+property "the track keeps the same observations in the same order with unchanged positions and timestamps" on its own.) -/
+theorem order_and_stamps_kept (sqrt : α → α) (fl : α → Int) (eps : α) (net : Net α) (dec : Decoder α) (a : Args α)
+    (t : TrackS α) (r : ResultN α) (h : matchOne sqrt fl eps net dec a t = .ok r) :
+    r.track.obs = t.obs ∧ r.track.obs.map (·.t) = t.obs.map (·.t) ∧ r.track.obs.map (·.pos) = t.obs.map (·.pos) := by
+  have := matchOne_obs sqrt fl eps net dec a t r h
+  exact ⟨this, by rw [this], by rw [this]⟩
+
+/-- T27 `time_stamps_never_read`: two tracks that differ by their time stamps only (same positions in the same order, same
+feature names, same `obs_noise` column) get the same `STATES`, the same `hmm_inference` column, the same feature names and
+`obs_noise` column, or the same exception — provided the decoder reads, of the track, the positions, the names and the
+`obs_noise` column only (`Decoder.TimeBlind`; `HMM.estimate` is called with `MODE_OBS_AS_2D_POSITIONS`, `__obs_log` reads
+`obs_noise` and the position, `__tst_log` the states). In particular the result on a track stored in any order is the result on
+the same list of positions stamped chronologically: nothing needs sorting, and by T26 nothing is sorted. The preparation of
+`STATES` (first conjunct) needs no hypothesis on the decoder. -/
+theorem time_stamps_never_read (sqrt : α → α) (fl : α → Int) (eps : α) (net : Net α) (a : Args α) (t t' : TrackS α)
+    (hpos : t.obs.map (·.pos) = t'.obs.map (·.pos)) :
+    allStatesNet sqrt fl eps a.searchRadius net t.obs = allStatesNet sqrt fl eps a.searchRadius net t'.obs ∧
+    ∀ (dec : Decoder α), Decoder.TimeBlind dec → t.names = t'.names → t.noise = t'.noise →
+      (matchOne sqrt fl eps net dec a t).map ResultN.view = (matchOne sqrt fl eps net dec a t').map ResultN.view :=
+  ⟨allStatesNet_pos_only sqrt fl eps a.searchRadius net t.obs t'.obs hpos,
+   fun dec hdec hn hz => matchOne_time_blind sqrt fl eps net dec hdec a t t' hpos hn hz⟩
+
+/-- non-vacuity of T27: a track stored in reverse chronological order with a tie, and the same positions stamped 1, 2, 3 -/
+example : ([⟨(0, 0), 20⟩, ⟨(1, 0), 20⟩, ⟨(2, 5), 10⟩] : List (Obs Rat)).map (·.pos)
+    = ([⟨(0, 0), 1⟩, ⟨(1, 0), 2⟩, ⟨(2, 5), 3⟩] : List (Obs Rat)).map (·.pos) := rfl
+
+/-- non-vacuity of `Decoder.TimeBlind`: every decoder computed from the network, the positions, the feature names, the
+`obs_noise` column and `STATES` is time-blind -/
+example (f : Net α → List (α × α) → List String → List α → List (List (State α)) → List Nat) :
+    Decoder.TimeBlind (fun net u st => f net (u.obs.map (·.pos)) u.names u.noise st) := by
+  intro net u u' st h1 h2 h3
+  simp only [h1, h2, h3]
 
 end TV.C10
